@@ -125,3 +125,36 @@ Lemma attachments_are_spec : map snd attachment_enum = known_attachments.
 Proof. vm_compute. reflexivity. Qed.
 Lemma cred_types_are_spec : map snd cred_type_enum = ["public-key"%string].
 Proof. vm_compute. reflexivity. Qed.
+
+(* ---------- client data JSON: exactly type / decoded challenge / origin; unknown members ignored ---------- *)
+From PW Require Import Model.ClientData.
+Theorem parse_client_data_exact O raw m t c ch o :
+  o_json_loads O false raw = JOk (JObj m) ->
+  jget m k_type = Some t -> jget m k_challenge = Some (JStr c) -> b64url_dec c = Ok ch -> jget m k_origin = Some o ->
+  match jget m (s2l "tokenBinding") with Some (JObj _) => False | _ => True end ->
+  parse_client_data O raw = Ok {| cd_type := t; cd_challenge := ch; cd_origin := o; cd_token_binding := None |}.
+Proof.
+  intros HL Ht Hc Hd Ho Htb. unfold parse_client_data. rewrite HL.
+  unfold jhas, jget_none. rewrite Ht, Hc, Ho. cbn [negb py_format]. rewrite Hd. cbn [bind].
+  destruct (jget m (s2l "tokenBinding")) as [[| | | | | |tbo]|]; try contradiction; reflexivity.
+Qed.
+
+Theorem parse_client_data_token_binding O raw m t c ch o tb st :
+  o_json_loads O false raw = JOk (JObj m) ->
+  jget m k_type = Some t -> jget m k_challenge = Some (JStr c) -> b64url_dec c = Ok ch -> jget m k_origin = Some o ->
+  jget m (s2l "tokenBinding") = Some (JObj tb) -> jget tb (s2l "status") = Some st ->
+  parse_client_data O raw = Ok {| cd_type := t; cd_challenge := ch; cd_origin := o; cd_token_binding := Some st |}.
+Proof.
+  intros HL Ht Hc Hd Ho Htb Hst. unfold parse_client_data. rewrite HL.
+  unfold jhas, jget_none. rewrite Ht, Hc, Ho. cbn [negb py_format]. rewrite Hd. cbn [bind]. rewrite Htb, Hst. reflexivity.
+Qed.
+
+Theorem parse_client_data_missing_member O raw m :
+  o_json_loads O false raw = JOk (JObj m) ->
+  jget m k_type = None \/ jget m k_challenge = None \/ jget m k_origin = None ->
+  parse_client_data O raw = Err (Lib InvalidJSONStructure).
+Proof.
+  intros HL H. unfold parse_client_data. rewrite HL. unfold jhas.
+  destruct (jget m k_type); [|reflexivity]. destruct (jget m k_challenge); [|reflexivity]. destruct (jget m k_origin); [|reflexivity].
+  destruct H as [H|[H|H]]; discriminate.
+Qed.
